@@ -85,7 +85,7 @@ impl RequestBuilder {
         Some(RequestBuilder { url: self.url.clone(), headers: self.headers.clone(), timeout: self.timeout })
     }
     pub fn send(self) -> Pending {
-        Pending { req: Some(self), wait: None }
+        Pending { req: Some(self), wait: None, timer: simkit::exec::TimerSlot::new() }
     }
 }
 
@@ -93,6 +93,7 @@ impl RequestBuilder {
 pub struct Pending {
     req: Option<RequestBuilder>,
     wait: Option<(u64, ResponsePlan, Option<u64>)>,
+    timer: simkit::exec::TimerSlot,
 }
 
 impl Future for Pending {
@@ -132,12 +133,12 @@ impl Future for Pending {
                     simkit::count("http-timeout");
                     return Poll::Ready(Err(Error::new(Kind::Timeout, "operation timed out")));
                 }
-                simkit::exec::register_timer(d, cx.waker().clone());
+                self.timer.arm(d, cx);
                 return Poll::Pending;
             }
         }
         if now < ready_at {
-            simkit::exec::register_timer(ready_at, cx.waker().clone());
+            self.timer.arm(ready_at, cx);
             return Poll::Pending;
         }
         let (_, plan, deadline) = self.wait.take().unwrap();
@@ -155,6 +156,7 @@ impl Future for Pending {
                     next_at: None,
                     deadline,
                     done: false,
+                    timer: simkit::exec::TimerSlot::new(),
                 },
             })),
         }
@@ -200,6 +202,7 @@ pub struct Body {
     next_at: Option<u64>,
     deadline: Option<u64>,
     done: bool,
+    timer: simkit::exec::TimerSlot,
 }
 
 impl Body {
@@ -224,7 +227,7 @@ impl Body {
                     simkit::count("http-timeout");
                     return Poll::Ready(Some(Err(Error::new(Kind::Timeout, "operation timed out"))));
                 }
-                simkit::exec::register_timer(d, cx.waker().clone());
+                self.timer.arm(d, cx);
                 return Poll::Pending;
             }
         }
@@ -232,10 +235,10 @@ impl Body {
             if matches!(self.end, BodyEnd::Stall) && self.fragments.is_empty() && self.deadline.is_none() {
                 // a stalled body without a timeout never completes: let the executor see a
                 // far-future timer so that the run ends by step budget / deadlock, not here
-                simkit::exec::register_timer(at, cx.waker().clone());
+                self.timer.arm(at, cx);
                 return Poll::Pending;
             }
-            simkit::exec::register_timer(at, cx.waker().clone());
+            self.timer.arm(at, cx);
             return Poll::Pending;
         }
         self.next_at = None;
